@@ -203,18 +203,70 @@ def currOf (b : Batt K) (pilot V T ν : K) : K :=
   let c0 := contSoc s b.ts (pd0Of b pilot V T) (mdOf b T)
   if 0 < b.noiseLevel then max (c0 - |ν * (T / 60) / b.capacity|) s else c0
 
-theorem contCharge_ok (b : Batt K) (ν : K) {pilot V T : K} (hV : 0 < V) (hT : 0 < T)
-    (hp : pilot ≠ 0) (hc : b.capacity ≠ 0) (hm : mdOf b T ≠ 0) :
+/-- below full charge the closed form is evaluated -/
+theorem contCharge_ok_lt (b : Batt K) (ν : K) {pilot V T : K} (hV : 0 < V) (hT : 0 < T)
+    (hp : pilot ≠ 0) (hc : b.capacity ≠ 0) (hm : mdOf b T ≠ 0) (hs : b.charge / b.capacity < 1) :
     contCharge b pilot V T ν =
       .ok ({ b with charge := currOf b pilot V T ν * b.capacity,
                     power := (currOf b pilot V T ν - b.charge / b.capacity) * b.capacity / (T / 60) },
            (currOf b pilot V T ν - b.charge / b.capacity) * b.capacity / (T / 60) * 1000 / V) := by
   unfold mdOf at hm
   simp only [contCharge, currOf, pd0Of, mdOf, not_le.mpr hV, not_le.mpr hT, isZero_false hp,
-    isZero_false hc, if_false, Battery.soc, pyMax_eq_max, absK_eq_abs, Nat.cast_ofNat,
+    isZero_false hc, if_false, Battery.soc, not_le.mpr hs, pyMax_eq_max, absK_eq_abs, Nat.cast_ofNat,
     Bool.false_eq_true]
   rw [isZero_false (by simpa using hm)]
   simp
+
+/-- a full battery (fix F18): the guard returns at once, charge untouched, rate 0 -/
+theorem contCharge_full (b : Batt K) (ν : K) {pilot V T : K} (hV : 0 < V) (hT : 0 < T)
+    (hp : pilot ≠ 0) (hc : b.capacity ≠ 0) (hs : 1 ≤ b.charge / b.capacity) :
+    contCharge b pilot V T ν = .ok ({ b with power := 0 }, 0) := by
+  simp only [contCharge, not_le.mpr hV, not_le.mpr hT, isZero_false hp, isZero_false hc, if_false,
+    Battery.soc, hs, if_true, Bool.false_eq_true]
+
+/-- the closed form at SoC exactly 1 with a positive pilot stays at 1 -/
+theorem currOf_full (b : Batt K) (ν : K) {pilot V T : K} (hV : 0 < V) (hT : 0 < T) (hp : 0 < pilot)
+    (hc : 0 < b.capacity) (hmp : 0 < b.maxPower) (hts : b.ts < 1) (hs : b.charge / b.capacity = 1) :
+    currOf b pilot V T ν = 1 := by
+  have hmd : 0 < mdOf b T := by unfold mdOf; positivity
+  have hpd0 : 0 < pd0Of b pilot V T := by unfold pd0Of; positivity
+  have hpd : 0 < (if mdOf b T < pd0Of b pilot V T then mdOf b T else pd0Of b pilot V T) := by
+    split <;> assumption
+  have hpts : ¬ (1 : K) < b.ts + ((if mdOf b T < pd0Of b pilot V T then mdOf b T else pd0Of b pilot V T)
+      - mdOf b T) / mdOf b T * (b.ts - 1) := by
+    rw [not_lt]
+    have h1 : ((if mdOf b T < pd0Of b pilot V T then mdOf b T else pd0Of b pilot V T) - mdOf b T) / mdOf b T
+        = (if mdOf b T < pd0Of b pilot V T then mdOf b T else pd0Of b pilot V T) / mdOf b T - 1 := by
+      field_simp
+    rw [h1]
+    have h2 : 0 < (if mdOf b T < pd0Of b pilot V T then mdOf b T else pd0Of b pilot V T) / mdOf b T :=
+      div_pos hpd hmd
+    nlinarith
+  unfold currOf
+  simp only [hs, contSoc, hpts, if_false, sub_self, mul_zero, add_zero]
+  split
+  · rw [max_eq_right]
+    have := abs_nonneg (ν * (T / 60) / b.capacity)
+    linarith
+  · rfl
+
+/-- the explicit result of the continuous calculation for a battery that is not over-full and a
+    positive pilot: at SoC 1 the guard of fix F18 and the closed form agree -/
+theorem contCharge_ok (b : Batt K) (ν : K) {pilot V T : K} (hV : 0 < V) (hT : 0 < T)
+    (hp : 0 < pilot) (hc : 0 < b.capacity) (hmp : 0 < b.maxPower) (hts : b.ts < 1)
+    (hle : b.charge ≤ b.capacity) :
+    contCharge b pilot V T ν =
+      .ok ({ b with charge := currOf b pilot V T ν * b.capacity,
+                    power := (currOf b pilot V T ν - b.charge / b.capacity) * b.capacity / (T / 60) },
+           (currOf b pilot V T ν - b.charge / b.capacity) * b.capacity / (T / 60) * 1000 / V) := by
+  have hmd : 0 < mdOf b T := by unfold mdOf; positivity
+  have hs1 : b.charge / b.capacity ≤ 1 := (div_le_one hc).2 hle
+  rcases lt_or_eq_of_le hs1 with hs | hs
+  · exact contCharge_ok_lt b ν hV hT hp.ne' hc.ne' hmd.ne' hs
+  · rw [contCharge_full b ν hV hT hp.ne' hc.ne' hs.ge, currOf_full b ν hV hT hp hc hmp hts hs, hs]
+    have hcc : b.charge = b.capacity := by
+      have := (div_eq_one_iff_eq hc.ne').1 hs; exact this
+    simp [hcc]
 
 theorem contCharge_err (b : Batt K) (pilot ν : K) {V T : K} (h : V ≤ 0 ∨ T ≤ 0) :
     contCharge b pilot V T ν = .error .valueError := by
